@@ -4,10 +4,13 @@
    Jacobian (external routines); theorems hold for ARBITRARY unit increments.
    [left] is the flag handed to cumprod in propagate_cov: the source uses left=false
    ([code_left]; since /repo 608b3d9 - before it the default left=true, see the history theorem).
-   [forward1] = [forward1_gen code_left], [propagate_cov] = [propagate_cov_gen code_left]. *)
+   [forward1] = [forward1_gen code_left], [propagate_cov] = [propagate_cov_gen code_left].
+   Second part (proofs in Proofs/IMU2.v, Proofs/IMU3.v): the statements that need no unit-norm hypothesis, every
+   call of a history, identical module state, the batch axis (with and without rot=, histories, chunking,
+   covariance), one frame at a time, the supplied rotation vs gravity, the increments of the C01 Exp model. *)
 From Coq Require Import QArith Reals List.
 Import ListNotations.
-From PV Require Import Base.Num Base.Mat Model.Cumops Model.LieGroup Model.IMU Proofs.LieGroup Proofs.IMU.
+From PV Require Import Base.Num Base.Mat Model.Cumops Model.LieGroup Model.LieExp Model.IMU Proofs.LieGroup Proofs.IMU Proofs.IMU2 Proofs.IMU3.
 Close Scope Q_scope.
 Local Open Scope R_scope.
 #[local] Remove Hints NumQ NumZ : typeclass_instances.
@@ -129,6 +132,219 @@ Example C16_hypotheses_satisfiable :
   mvalid (s_cov (init_istate (F:=R) (0, 0, 0) SO3_id (0, 0, 0))).
 Proof. exact hypotheses_satisfiable. Qed.
 
+(* ================================================================== second part *)
+
+(* clause 1 with NO hypothesis on the quaternions: one call returns predict (composition with the initial state)
+   applied to the documented pre-integration recursion [pre_run] from (I, 0, 0, 0); carried state = its last element *)
+Theorem C16_forward_is_composed_recursion :
+  forall (left : bool) (c : cfg R) (st : istate R) (fs : list (iframe R)),
+  fs <> [] ->
+  let W := map (compose (s_rot st) (s_vel st) (s_pos st)) (pre_run (c_g c) (s_rot st) pre_init fs) in
+  exists o st', forward1_gen left c st fs = Some (o, st') /\
+    o_rot o = map w_R W /\ o_vel o = map w_v W /\ o_pos o = map w_p W /\
+    (c_prop c = true <-> o_cov o <> None) /\
+    (c_reset c = true -> st' = st) /\
+    (c_reset c = false -> st_w st' = List.last W (st_w st) /\
+                          rij_val st' = fold_left SO3_mul (map (@i_inc R) fs) (rij_val st) /\
+                          (forall C, o_cov o = Some C -> s_cov st' = C) /\
+                          (c_prop c = false -> s_cov st' = s_cov st)).
+Proof. exact forward1_composed. Qed.
+
+(* the covariance one call returns is the documented recursion C <- A_k C A_k^T + Q_k over the frames of the
+   call, A_k / Q_k built from (carried Rij * increments so far, increment, acceleration without gravity, Jr, dt) *)
+Theorem C16_forward_cov_is_recursion :
+  forall (c : cfg R) (st : istate R) (fs : list (iframe R)) o st',
+  c_prop c = true -> wf 9 9 (s_cov st) -> forward1 c st fs = Some (o, st') ->
+  let X := cfr_run (c_g c) (s_rot st) (rij_val st) fs in
+  o_cov o = Some (cov_rec (map cov_A X) (map (cov_Q (c_cg c) (c_ca c)) X) (s_cov st)).
+Proof. exact forward1_cov_is_recursion. Qed.
+
+(* rotation, carried Rij and covariance are chunking-invariant for ANY quaternions (no unit-norm hypothesis:
+   only velocity and position need R(q1 q2) = R(q1) R(q2)) *)
+Theorem C16_chunk_invariance_rot_cov_any_quaternions :
+  forall (c : cfg R) (st : istate R) (chunks : list (list (iframe R))),
+  c_reset c = false -> chunks <> [] -> Forall (fun fs => fs <> []) chunks ->
+  exists os st1 o st2,
+    run1_gen code_left c st chunks = Some (os, st1) /\ forward1 c st (concat chunks) = Some (o, st2) /\
+    concat (map (@o_rot R) os) = o_rot o /\ s_rot st1 = s_rot st2 /\ rij_val st1 = rij_val st2 /\
+    (c_prop c = true -> wf 9 9 (s_cov st) -> s_cov st1 = s_cov st2 /\ o_cov o = Some (s_cov st1)).
+Proof. exact chunk_invariance_rot_cov. Qed.
+
+(* one call vs any chunking: same outputs at every frame and literally the SAME module state afterwards
+   (pos, rot, vel, cov, Rij), so every later call behaves identically as well *)
+Theorem C16_chunk_invariance_same_state :
+  forall (c : cfg R) (st : istate R) (chunks : list (list (iframe R))),
+  c_reset c = false -> chunks <> [] -> Forall (fun fs => fs <> []) chunks -> Forall unit_frames chunks -> unitq (s_rot st) ->
+  (c_prop c = true -> wf 9 9 (s_cov st)) ->
+  exists os o st',
+    run1_gen code_left c st chunks = Some (os, st') /\ forward1 c st (concat chunks) = Some (o, st') /\
+    concat (map (@o_rot R) os) = o_rot o /\ concat (map (@o_vel R) os) = o_vel o /\ concat (map (@o_pos R) os) = o_pos o /\
+    (c_prop c = true -> o_cov o = Some (s_cov st')) /\ (c_prop c = false -> o_cov o = None).
+Proof. exact chunk_invariance_state. Qed.
+
+(* EVERY call of a history (frames [fs] after the chunks [pre], whatever follows) returns the part of ONE call on
+   all frames fed so far that belongs to its frames, and the same covariance (covariance at every chunk boundary) *)
+Theorem C16_call_in_history :
+  forall (c : cfg R) (st : istate R) (pre : list (list (iframe R))) (fs : list (iframe R)) (post : list (list (iframe R))) os st',
+  c_reset c = false -> Forall (fun x => x <> []) pre -> fs <> [] -> Forall unit_frames pre -> unit_frames fs -> unitq (s_rot st) ->
+  run1_gen code_left c st (pre ++ fs :: post) = Some (os, st') ->
+  exists os1 ok os2 o st2,
+    os = os1 ++ ok :: os2 /\ length os1 = length pre /\
+    forward1 c st (concat pre ++ fs) = Some (o, st2) /\
+    o_rot o = concat (map (@o_rot R) os1) ++ o_rot ok /\
+    o_vel o = concat (map (@o_vel R) os1) ++ o_vel ok /\
+    o_pos o = concat (map (@o_pos R) os1) ++ o_pos ok /\
+    (c_prop c = true -> wf 9 9 (s_cov st) -> o_cov o = o_cov ok).
+Proof. exact call_in_history. Qed.
+
+(* ---- the batch axis.  [call_B left c st items] is the rank-3 call whose item b has the frames [nth b items]
+   (rot= present iff some frame carries a rotation); [runB] a history of such calls on one object *)
+Theorem C16_forward_per_item_with_rot :
+  forall (left : bool) (c : cfg R) (st : list (istate R)) (items : list (list (iframe R))),
+  Forall no_rot items \/ Forall all_rot items ->
+  forward_gen left c st (T3 (map (map (@i_dt R)) items)) (T3 (map (map (@i_inc R)) items)) (T3 (map (map (@i_jr R)) items))
+              (T3 (map (map (@i_acc R)) items)) (rot_arg items) =
+  match bcast (length items) st with
+  | Some stB => match opt_all (zip_with (forward1_gen left c) stB items) with
+                | Some res => Some (map fst res, map snd res) | None => None end
+  | None => None
+  end.
+Proof. exact forward_per_item_any. Qed.
+
+(* item b of a batched history behaves exactly like a single-IMU object fed item b's frames ... *)
+Theorem C16_batch_history_per_item :
+  forall (left : bool) (c : cfg R) (B : nat) (dS : istate R) (dO : out1 R) calls st oss st',
+  length st = B -> Forall (fun items => length items = B /\ (Forall no_rot items \/ Forall all_rot items)) calls ->
+  runB left c st calls = Some (oss, st') ->
+  length st' = B /\ Forall (fun os => length os = B) oss /\ length oss = length calls /\
+  forall b, (b < B)%nat ->
+    run1_gen left c (nth b st dS) (map (fun items => nth b items []) calls) = Some (map (fun os => nth b os dO) oss, nth b st' dS).
+Proof. exact runB_item. Qed.
+(* ... and the batched history returns whenever every item's history does *)
+Theorem C16_batch_history_total :
+  forall (left : bool) (c : cfg R) (B : nat) (dS : istate R) calls st,
+  length st = B -> Forall (fun items => length items = B /\ (Forall no_rot items \/ Forall all_rot items)) calls ->
+  (forall b, (b < B)%nat -> run1_gen left c (nth b st dS) (map (fun items => nth b items []) calls) <> None) ->
+  exists oss st', runB left c st calls = Some (oss, st').
+Proof. exact runB_total. Qed.
+(* [runB] is the model's own history function [run_calls] on the corresponding rank-3 calls; the constructor
+   state (one item) is broadcast to the batch size *)
+Theorem C16_batch_history_is_run_calls :
+  forall (c : cfg R) calls st oss st', runB code_left c st calls = Some (oss, st') ->
+  run_calls c st (map call_of_items calls) = map Some oss.
+Proof. exact run_calls_runB. Qed.
+Theorem C16_batch_broadcast_initial_state :
+  forall (left : bool) (c : cfg R) (x : istate R) (items : list (list (iframe R))),
+  Forall no_rot items \/ Forall all_rot items -> call_B left c [x] items = call_B left c (repeat x (length items)) items.
+Proof. exact call_B_bcast. Qed.
+
+(* chunk invariance for a batch of B IMUs (any B), the frame axis split by any sequence of calls, with or
+   without rot=: per item the same rot / vel / pos at every frame, the same carried state and covariance as the
+   single call on the item-wise concatenation [catB] *)
+Theorem C16_batch_chunk_invariance :
+  forall (c : cfg R) (B : nat) (dS : istate R) (dO : out1 R) (st : list (istate R)) (calls : list (list (list (iframe R)))),
+  c_reset c = false -> calls <> [] -> length st = B ->
+  Forall (fun items => length items = B /\ Forall (fun fs => fs <> []) items /\ Forall unit_frames items) calls ->
+  Forall (Forall no_rot) calls \/ Forall (Forall all_rot) calls -> Forall (fun s => unitq (s_rot s)) st ->
+  exists oss st1 os st2,
+    runB code_left c st calls = Some (oss, st1) /\ call_B code_left c st (catB B calls) = Some (os, st2) /\
+    length st1 = B /\ length os = B /\ length st2 = B /\
+    forall b, (b < B)%nat ->
+      concat (map (@o_rot R) (map (fun os => nth b os dO) oss)) = o_rot (nth b os dO) /\
+      concat (map (@o_vel R) (map (fun os => nth b os dO) oss)) = o_vel (nth b os dO) /\
+      concat (map (@o_pos R) (map (fun os => nth b os dO) oss)) = o_pos (nth b os dO) /\
+      st_w (nth b st1 dS) = st_w (nth b st2 dS) /\ rij_val (nth b st1 dS) = rij_val (nth b st2 dS) /\
+      (c_prop c = true -> wf 9 9 (s_cov (nth b st dS)) ->
+       s_cov (nth b st1 dS) = s_cov (nth b st2 dS) /\ o_cov (nth b os dO) = Some (s_cov (nth b st1 dS))).
+Proof. exact batch_chunk_invariance. Qed.
+
+(* every covariance returned or carried by any history of batched calls is symmetric PSD *)
+Theorem C16_batch_cov_valid_over_histories :
+  forall (left : bool) (c : cfg R) (B : nat) (st : list (istate R)) (calls : list (list (list (iframe R)))) oss st',
+  length st = B -> Forall (fun items => length items = B /\ (Forall no_rot items \/ Forall all_rot items)) calls ->
+  Forall (fun s => mvalid (s_cov s)) st -> Forall (Forall (cov_inputs_ok c)) calls -> runB left c st calls = Some (oss, st') ->
+  Forall (Forall (fun o => forall C, o_cov o = Some C -> mvalid C)) oss /\ Forall (fun s => mvalid (s_cov s)) st'.
+Proof. exact runB_cov_valid. Qed.
+
+(* the real-time use: F calls with inputs of shape (H) (one frame each, reset=False) against one call of shape (F,H) *)
+Theorem C16_one_frame_at_a_time :
+  forall (c : cfg R) (st : istate R) (fs : list (iframe R)),
+  c_reset c = false -> fs <> [] -> unit_frames fs -> unitq (s_rot st) -> no_rot fs \/ all_rot fs ->
+  exists oss st1 o st2,
+    run_rank1 code_left c [st] fs = Some (map (fun x => [x]) oss, [st1]) /\ call_rank2 code_left c [st] fs = Some ([o], [st2]) /\
+    concat (map (@o_rot R) oss) = o_rot o /\ concat (map (@o_vel R) oss) = o_vel o /\ concat (map (@o_pos R) oss) = o_pos o /\
+    st_w st1 = st_w st2 /\ rij_val st1 = rij_val st2 /\
+    (c_prop c = true -> wf 9 9 (s_cov st) -> s_cov st1 = s_cov st2 /\ o_cov o = Some (s_cov st1)).
+Proof. exact one_frame_at_a_time. Qed.
+
+(* rank equivalence through whole histories of calls on one object (outputs of every call, raised calls included) *)
+Theorem C16_rank_equivalence_histories :
+  forall (c : cfg R),
+  (forall l st, run_calls c st (map call_1 l) = run_calls c st (map call_1as3 l)) /\
+  (forall l st, run_calls c st (map call_2 l) = run_calls c st (map call_2as3 l)).
+Proof. exact rank_equivalence_histories. Qed.
+
+(* ---- gravity and the supplied rotation.  If the supplied rotations take out the same gravity vector as the
+   integrated rotation would, the call is exactly the call without rot= (outputs, covariance, carried state) *)
+Theorem C16_supplied_rot_irrelevant :
+  forall (left : bool) (c : cfg R) (st : istate R) (fs : list (iframe R)),
+  rot_agrees (c_g c) (s_rot st) fs -> forward1_gen left c st (map strip_rot fs) = forward1_gen left c st fs.
+Proof. exact forward1_rot_irrelevant. Qed.
+(* zero gravity: any supplied rotation *)
+Theorem C16_zero_gravity_rot_irrelevant :
+  forall (left : bool) (c : cfg R) (st : istate R) (fs : list (iframe R)),
+  c_g c = vzero -> forward1_gen left c st (map strip_rot fs) = forward1_gen left c st fs.
+Proof. intros left c st fs H. apply forward1_rot_irrelevant. rewrite H. apply rot_agrees_zero_g. Qed.
+(* supplied rotation = integrated rotation AFTER the frame's increment: the index convention of the code *)
+Theorem C16_integrated_rot_irrelevant :
+  forall (left : bool) (c : cfg R) (st : istate R) (fs : list (iframe R)),
+  rot_is_integrated (s_rot st) fs -> forward1_gen left c st (map strip_rot fs) = forward1_gen left c st fs.
+Proof. intros left c st fs H. apply forward1_rot_irrelevant. now apply rot_agrees_integrated. Qed.
+(* an accelerometer reading exactly gravity in the frame after the increment (or in the supplied rotation)
+   produces no acceleration: velocity constant, position p + T v ... *)
+Theorem C16_gravity_only_no_acceleration :
+  forall g (fs : list (iframe R)) (s : wstate), reads_gravity g (w_R s) fs ->
+  Forall (fun s' => w_v s' = w_v s) (world_run g s fs) /\
+  w_v (fold_left (world_step g) fs s) = w_v s /\
+  w_p (fold_left (world_step g) fs s) = vadd (w_p s) (vscale (fold_left Rplus (map (@i_dt R) fs) 0) (w_v s)).
+Proof. exact gravity_only_no_acceleration. Qed.
+(* ... whereas gravity read in the frame BEFORE the increment is not cancelled (half turn about x, g = e_z, dt = 1) *)
+Theorem C16_gravity_pre_increment_not_cancelled :
+  let g : vec3R := (0, 0, 1) in
+  let f : iframe R := {| i_dt := 1; i_inc := ((1, 0, 0), 0); i_acc := SO3_act (SO3_inv SO3_id) g; i_grot := None; i_jr := mid3 |} in
+  unitq (i_inc f) /\ w_v (world_step g (SO3_id, vzero, vzero) f) = (0, 0, 2).
+Proof. exact gravity_pre_increment_not_cancelled. Qed.
+
+(* ---- gyro level: the increments are so3(gyro*dt).Exp(); with the C01 model of Exp they are exactly unit on the
+   closed-form branch and at gyro*dt = 0 (so [unit_frames] is met) - but not on the Taylor branch
+   0 < |gyro*dt| <= eps (deviation theta^6 (640 - 60 theta^2 + theta^4)/14745600 over R, ~1e-96 for float64):
+   there only the any-quaternion statements above apply exactly *)
+Theorem C16_gyro_increments_unit :
+  forall (eps : R) (w : vec3R) (d : R), 0 <= eps ->
+  eps < vnorm (wdt w d) \/ wdt w d = vzero -> unitq (gyro_inc (so3_exp eps) (w, d)).
+Proof. exact gyro_inc_unit. Qed.
+Theorem C16_gyro_taylor_increment_not_unit :
+  forall (eps : R) (w : vec3R) (d : R), eps <= 1 / 1024 ->
+  0 < vnorm (wdt w d) <= eps -> ~ unitq (gyro_inc (so3_exp eps) (w, d)).
+Proof. exact gyro_inc_taylor_not_unit. Qed.
+Example C16_gyro_unit_example : unitq (gyro_inc (so3_exp (/ 4503599627370496)) ((0, 0, 1), 1)).
+Proof. exact gyro_unit_example. Qed.
+
+(* the unit-norm hypothesis of the velocity / position chunk invariance is NEEDED: three frames with the non-unit
+   increment (1,0,0 | 1), dt = 1, acc = 0, 0, e_y, no gravity, zero state; one call vs chunks [1, 2] (model over Q) *)
+Theorem C16_non_unit_velocity_not_chunk_invariant :
+  nu_single = Some (0, -7, 0)%Q /\ nu_chunked = Some (0, -3, -4)%Q /\ nu_single <> nu_chunked.
+Proof. exact non_unit_velocity_not_chunk_invariant. Qed.
+
+(* the hypotheses of the batch theorems are satisfiable non-trivially: two IMUs, calls of 2 + 1 frames, half-turn
+   increments, supplied rotations, non-identity initial rotation, non-zero gravity *)
+Example C16_batch_hypotheses_satisfiable :
+  ex_calls <> [] /\ length ex_st = 2%nat /\ Forall (good_call 2) ex_calls /\ Forall (Forall all_rot) ex_calls /\
+  Forall (fun s => unitq (s_rot s)) ex_st /\ batch_ok 2 ex_calls /\ Forall (Forall (cov_inputs_ok ex_cfg)) ex_calls /\
+  Forall (fun s => mvalid (s_cov s)) ex_st /\ c_reset ex_cfg = false /\
+  rot_is_integrated ((0, 1, 0), 0) [{| i_dt := 1; i_inc := ((1, 0, 0), 0); i_acc := (0, 0, 0); i_grot := Some (SO3_mul ((0, 1, 0), 0) ((1, 0, 0), 0)); i_jr := mid3 |}].
+Proof. exact batch_hypotheses_satisfiable. Qed.
+
 Print Assumptions C16_integrate_is_recursion.
 Print Assumptions C16_forward_is_recursion.
 Print Assumptions C16_compose_is_predict.
@@ -142,3 +358,27 @@ Print Assumptions C16_cov_fixed_is_recursion.
 Print Assumptions C16_cov_chunk_invariance.
 Print Assumptions C16_forward_per_item.
 Print Assumptions C16_hypotheses_satisfiable.
+Print Assumptions C16_forward_is_composed_recursion.
+Print Assumptions C16_forward_cov_is_recursion.
+Print Assumptions C16_chunk_invariance_rot_cov_any_quaternions.
+Print Assumptions C16_chunk_invariance_same_state.
+Print Assumptions C16_call_in_history.
+Print Assumptions C16_forward_per_item_with_rot.
+Print Assumptions C16_batch_history_per_item.
+Print Assumptions C16_batch_history_total.
+Print Assumptions C16_batch_history_is_run_calls.
+Print Assumptions C16_batch_broadcast_initial_state.
+Print Assumptions C16_batch_chunk_invariance.
+Print Assumptions C16_batch_cov_valid_over_histories.
+Print Assumptions C16_one_frame_at_a_time.
+Print Assumptions C16_rank_equivalence_histories.
+Print Assumptions C16_supplied_rot_irrelevant.
+Print Assumptions C16_zero_gravity_rot_irrelevant.
+Print Assumptions C16_integrated_rot_irrelevant.
+Print Assumptions C16_gravity_only_no_acceleration.
+Print Assumptions C16_gravity_pre_increment_not_cancelled.
+Print Assumptions C16_gyro_increments_unit.
+Print Assumptions C16_gyro_taylor_increment_not_unit.
+Print Assumptions C16_gyro_unit_example.
+Print Assumptions C16_batch_hypotheses_satisfiable.
+Print Assumptions C16_non_unit_velocity_not_chunk_invariant.
